@@ -20,6 +20,42 @@ type GInfo struct {
 	State string
 	Sched bool
 	Text  string
+	// Creator is the function of the "created by" line, Parent the goroutine
+	// it ran in (0 when the dump does not say).
+	Creator string
+	Parent  int64
+}
+
+// CreatedFor counts the goroutines of a dump that exist on behalf of a
+// directive called from goroutine caller: those started by the scheduler, the
+// cff runtime or generated code, and - transitively - those started from
+// inside such a goroutine or from the caller's goroutine by anything that is
+// not the harness (for example the watcher goroutine context.WithCancel
+// starts for a parent context that is not one of the standard library's).
+func CreatedFor(gs []GInfo, caller int64) int {
+	counted := map[int64]bool{}
+	harness := func(c string) bool {
+		return strings.HasPrefix(c, "vinner") || strings.HasPrefix(c, "vcase/rt") ||
+			strings.HasPrefix(c, "testing.") || strings.HasPrefix(c, "pgregory.net/")
+	}
+	for _, g := range gs {
+		if strings.HasPrefix(g.Creator, "go.uber.org/cff") || strings.HasPrefix(g.Creator, "vcase/p") {
+			counted[g.ID] = true
+		}
+	}
+	for changed := true; changed; {
+		changed = false
+		for _, g := range gs {
+			if counted[g.ID] || g.Parent == 0 || harness(g.Creator) {
+				continue
+			}
+			if counted[g.Parent] || (caller != 0 && g.Parent == caller) {
+				counted[g.ID] = true
+				changed = true
+			}
+		}
+	}
+	return len(counted)
 }
 
 // DumpGoroutines parses runtime.Stack(all).
@@ -55,6 +91,17 @@ func parseDump(b []byte) []GInfo {
 			}
 		}
 		g := GInfo{ID: id, State: state, Text: s}
+		if cb := strings.LastIndex(s, "\ncreated by "); cb >= 0 {
+			line := s[cb+len("\ncreated by "):]
+			if nl := strings.IndexByte(line, '\n'); nl >= 0 {
+				line = line[:nl]
+			}
+			if in := strings.Index(line, " in goroutine "); in >= 0 {
+				g.Parent, _ = strconv.ParseInt(strings.TrimSpace(line[in+len(" in goroutine "):]), 10, 64)
+				line = line[:in]
+			}
+			g.Creator = line
+		}
 		g.Sched = strings.Contains(s, "cff/scheduler.worker") || strings.Contains(s, "cff/scheduler.(*Scheduler).run") ||
 			strings.Contains(s, "cff/scheduler.Config.New")
 		out = append(out, g)
